@@ -16,6 +16,19 @@ Tie between lean/OdmlModel/Model/Dict.lean (+ DictDoc.lean) and /repo:
               DictWriter, random key order) must load to the document they describe
   malformed   foreign keys, python-name keys, missing root keys, wrong version, values the dtype
               refuses, clashing names: strict vs lenient outcome and warnings vs the model
+  history     (oracle-only) one living document, several saves / loads one after the other: the same
+              ODMLWriter / ODMLReader / DictWriter / DictReader object used again, with and without an
+              edit in between, after a save the validation refused, after a load that failed; the same
+              file written again; every spelling of the backend name; odml.save without extension,
+              odml.display; keyword arguments of other backends; XML / RDF / validation in between
+  fresh       (oracle-only) the same kind of history in a NEW interpreter: first use of every writer /
+              reader / module-level table (PyYAML representers and constructors), other hash seed,
+              C locale without UTF-8; plus harness-written UTF-8 files read under that locale
+
+Configuration dimensions of roundtrip / scalar / denote cases (keys of the case, all optional):
+  spell {fmt: [writer name, reader name]}, show_warnings, fname, route (which part of the public API
+  builds the document: constructors, create_*, insert, setters after the fact incl. link merges, other
+  argument shapes, clone, clone(keep_id), loaded from XML), variant (dialect of a foreign text).
 
 Oracle (independent of the model): snapshot(load(save(d))) == snapshot(d) for every entry point and
 both formats, JSON and YAML agree, strict and lenient DictReader agree and do not warn, the text
@@ -312,40 +325,182 @@ def fresh_ids(snapshot, known):
     return out
 
 
-def build_doc(spec):
-    """Build the document of a spec through the public API."""
-    import odml
-    d = odml.Document(author=dec(spec["author"]), date=dec(spec["date"]), version=dec(spec["version"]),
-                      repository=dec(spec["repository"]), oid=spec["id"])
+def _prop_kw(p):
+    kw = {}
+    for k in ("unit", "definition", "dependency", "dependency_value", "uncertainty", "reference",
+              "value_origin"):
+        if p.get(k) is not None:
+            kw[k] = dec(p[k])
+    if p.get("val_card") is not None:
+        kw["val_cardinality"] = tuple(p["val_card"])
+    return kw
 
-    def build_sec(s, parent):
-        kw = {}
-        for k in ("definition", "reference", "link", "repository", "include"):
-            if s.get(k) is not None:
-                kw[k] = dec(s[k])
-        if s.get("sec_card") is not None:
-            kw["sec_cardinality"] = tuple(s["sec_card"])
-        if s.get("prop_card") is not None:
-            kw["prop_cardinality"] = tuple(s["prop_card"])
-        sec = odml.Section(name=dec(s["name"]), type=dec(s["type"]), parent=parent, oid=s["id"], **kw)
-        for p in s["props"]:
-            kw = {}
-            for k in ("unit", "definition", "dependency", "dependency_value", "uncertainty", "reference",
-                      "value_origin"):
-                if p.get(k) is not None:
-                    kw[k] = dec(p[k])
-            if p.get("val_card") is not None:
-                kw["val_cardinality"] = tuple(p["val_card"])
-            dtype = p.get("dtype")
-            if isinstance(dtype, dict):
-                dtype = getattr(odml.DType, dtype["enum"])
+
+def _sec_kw(s):
+    kw = {}
+    for k in ("definition", "reference", "link", "repository", "include"):
+        if s.get(k) is not None:
+            kw[k] = dec(s[k])
+    if s.get("sec_card") is not None:
+        kw["sec_cardinality"] = tuple(s["sec_card"])
+    if s.get("prop_card") is not None:
+        kw["prop_cardinality"] = tuple(s["prop_card"])
+    return kw
+
+
+def _prop_dtype(p):
+    import odml
+    dtype = p.get("dtype")
+    if isinstance(dtype, dict):
+        dtype = getattr(odml.DType, dtype["enum"])
+    return dtype
+
+
+def build_prop(p, sec):
+    """One Property of a spec, the constructor way."""
+    import odml
+    vals = [dec(v) for v in p["values"]]
+    return odml.Property(name=dec(p["name"]), values=vals if vals else None, dtype=_prop_dtype(p), parent=sec,
+                         oid=p["id"], **_prop_kw(p))
+
+
+def build_sec(s, parent):
+    """One Section (with everything below it) of a spec, the constructor way."""
+    import odml
+    sec = odml.Section(name=dec(s["name"]), type=dec(s["type"]), parent=parent, oid=s["id"], **_sec_kw(s))
+    for p in s["props"]:
+        build_prop(p, sec)
+    for c in s["secs"]:
+        build_sec(c, sec)
+    return sec
+
+
+def build_doc(spec, route=None):
+    """Build the document of a spec through the public API. `route` chooses which part of the public API
+    puts the document together (the property quantifies over every document buildable through it); every
+    check downstream is relative to the snapshot of the document that was really built."""
+    import odml
+    if route in (None, "ctor", "clone", "clone_keep_id", "via_xml"):
+        d = odml.Document(author=dec(spec["author"]), date=dec(spec["date"]), version=dec(spec["version"]),
+                          repository=dec(spec["repository"]), oid=spec["id"])
+        for s in spec["secs"]:
+            build_sec(s, d)
+        if route == "clone":
+            d = d.clone()                      # new ids everywhere
+        elif route == "clone_keep_id":
+            d = d.clone(keep_id=True)
+        elif route == "via_xml":
+            # the conversion use case: a document that was loaded from odML-XML
+            try:
+                from odml.tools.odmlparser import ODMLWriter, ODMLReader
+                x = ODMLReader("XML", show_warnings=False).from_string(ODMLWriter("XML").to_string(d))
+                if x is not None:
+                    d = x
+            except Exception:
+                pass                           # XML refuses the document (C01's business): keep the original
+        return d
+
+    if route == "shapes":
+        # other argument shapes of the same constructors: date as text, values as a tuple / a bare scalar,
+        # cardinalities as lists, ids in upper case
+        date = dec(spec["date"])
+        d = odml.Document(author=dec(spec["author"]), date=date.isoformat() if date is not None else None,
+                          version=dec(spec["version"]), repository=dec(spec["repository"]),
+                          oid=spec["id"].upper())
+
+        def shaped_sec(s, parent):
+            kw = _sec_kw(s)
+            for k in ("sec_cardinality", "prop_cardinality"):
+                if k in kw:
+                    kw[k] = list(kw[k])
+            sec = odml.Section(dec(s["name"]), dec(s["type"]), parent, oid=s["id"], **kw)
+            for p in s["props"]:
+                vals = [dec(v) for v in p["values"]]
+                pkw = _prop_kw(p)
+                if "val_cardinality" in pkw:
+                    pkw["val_cardinality"] = list(pkw["val_cardinality"])
+                if len(vals) == 1 and not isinstance(vals[0], str):
+                    shaped = vals[0]
+                elif vals:
+                    shaped = tuple(vals)
+                else:
+                    shaped = []
+                odml.Property(dec(p["name"]), shaped, sec, oid=p["id"].upper(), dtype=_prop_dtype(p), **pkw)
+            for c in s["secs"]:
+                shaped_sec(c, sec)
+        for s in spec["secs"]:
+            shaped_sec(s, d)
+        return d
+
+    # the remaining routes create empty objects and fill them through the setters / container methods
+    d = odml.Document(oid=spec["id"])
+    for k in ("author", "date", "version", "repository"):
+        if spec.get(k) is not None:
+            setattr(d, k, dec(spec[k]))
+
+    def fill_prop(prop, p, with_values):
+        if with_values:
+            dtype = _prop_dtype(p)
+            if dtype is not None:
+                prop.dtype = dtype
             vals = [dec(v) for v in p["values"]]
-            odml.Property(name=dec(p["name"]), values=vals if vals else None, dtype=dtype, parent=sec,
-                          oid=p["id"], **kw)
-        for c in s["secs"]:
-            build_sec(c, sec)
-    for s in spec["secs"]:
-        build_sec(s, d)
+            if vals:
+                prop.values = vals
+        for k, v in _prop_kw(p).items():
+            setattr(prop, k, v)
+
+    links = []
+
+    def fill_sec(sec, s, skip=()):
+        for k, v in _sec_kw(s).items():
+            if k == "link":
+                links.append((sec, v))         # the setter follows the link: only once the tree stands
+            elif k not in skip:
+                setattr(sec, k, v)
+
+    def late_sec(s, parent):
+        if route == "create":
+            kw = _sec_kw(s)
+            sec = parent.create_section(dec(s["name"]), dec(s["type"]), s["id"], kw.get("definition"),
+                                        kw.get("reference"), kw.get("repository"), kw.get("link"),
+                                        kw.get("include"))
+            fill_sec(sec, s, ("definition", "reference", "repository", "link", "include"))
+            links.pop() if "link" in kw else None
+            for p in s["props"]:
+                vals = [dec(v) for v in p["values"]]
+                prop = sec.create_property(dec(p["name"]), vals if vals else None, _prop_dtype(p), p["id"])
+                fill_prop(prop, p, False)
+            for c in s["secs"]:
+                late_sec(c, sec)
+        elif route == "insert":
+            # free standing objects, put in back to front with insert(0, ...)
+            sec = odml.Section(name=dec(s["name"]), type=dec(s["type"]), oid=s["id"], **_sec_kw(s))
+            for c in reversed(s["secs"]):
+                late_sec(c, sec)
+            for p in reversed(s["props"]):
+                vals = [dec(v) for v in p["values"]]
+                prop = odml.Property(name=dec(p["name"]), values=vals if vals else None, dtype=_prop_dtype(p),
+                                     oid=p["id"], **_prop_kw(p))
+                sec.insert(0, prop)
+            parent.insert(0, sec)
+        else:
+            # "late": everything arrives after the object exists and hangs in the tree
+            sec = odml.Section(name=dec(s["name"]), type=dec(s["type"]), parent=parent, oid=s["id"])
+            fill_sec(sec, s)
+            for p in s["props"]:
+                prop = odml.Property(name=dec(p["name"]), parent=sec, oid=p["id"])
+                fill_prop(prop, p, True)
+            for c in s["secs"]:
+                late_sec(c, sec)
+    for s in (reversed(spec["secs"]) if route == "insert" else spec["secs"]):
+        late_sec(s, d)
+    for sec, link in links:
+        # a link that leads somewhere merges the target into the Section (a document with merged
+        # Sections); one that leads nowhere is refused by the setter and stays unset
+        try:
+            sec.link = link
+        except Exception:
+            pass
     return d
 
 
@@ -412,7 +567,20 @@ PUNCT = ["a, b", "a;b", "(x)", "[x]", "{x}", "a: b", "- a", "#c", "a #c", "'", '
 UNICODE = ["\u00e9", "\u65e5\u672c", "\u00a0nbsp", "\u2028", "\x85", "emoji \U0001F600", "\x07", "\x7f",
            "\u200b", "\ufeff", "\u00e9\n\u00e9"]
 PLAIN = ["a", "mV", "some text", "Word", "x1", "http://example.org/a#b", "J. Doe", ""]
-STR_POOL = RETYPABLE + SPACEY + PUNCT + UNICODE + PLAIN
+# text longer than the line width of the YAML emitter / the JSON indentation (folding, trailing blanks at a
+# fold, double blanks, a blank in front of a fold, long words, long lines after a line feed)
+LONG = [("word " * 40).strip(), " lead " + "w " * 60, "tab\t" * 30, ("w" * 79 + " ") * 3, "a " * 39 + " b",
+        "\u00e9 " * 50, "x" * 200, ("x  y " * 20) + "\nline two  " + "z " * 50, "yes " * 30, "1 " * 45 + "2"]
+STR_POOL = RETYPABLE + SPACEY + PUNCT + UNICODE + PLAIN + LONG
+# strings the Lean driver's JSON reader is not asked to carry: only in the oracle-only streams
+EXTRA = ["a\ud800b", "\udfff", "a\x00b", "\x1b[0m", "\u2029 x", "\U0010ffff", "x" * 5000,
+         ("long line with many words, " * 12) + "\n" + ("and another one; " * 12)]
+# every spelling of a backend name the writers / readers accept (they upper() it); odml.save's own default
+# is spelled in lower case
+SPELLINGS = {"JSON": ["JSON", "json", "Json", "jSoN"], "YAML": ["YAML", "yaml", "Yaml", "yAmL"]}
+ENTRIES = ["string", "file", "saveload", "save_noext", "display"]
+ROUTES = ["ctor", "create", "insert", "late", "shapes", "clone", "clone_keep_id", "via_xml"]
+FNAMES = [None, "d\u00f6c 1", "DOC.v2", "a b"]
 NAME_POOL = ["a", "b", "ab", "s 1", "yes", "null", "1e3", "2020-01-01", " x ", "12", "n\u00e9", "true",
              "a: b", "#x", "[n]", "~", "1.5", "A", "on"]
 TUPLE_ITEMS = ["1", "2.5", "a", "x y", "", "(p)", "yes", "1e3", "\u00e9", "a:b", "[z]", "'"]
@@ -430,13 +598,18 @@ def new_id(rng):
 
 
 class Gen(object):
-    def __init__(self, rng, commas=False, falsy=True, enums=True):
+    def __init__(self, rng, commas=False, falsy=True, enums=True, extra=False, wide=False):
         self.rng = rng
         self.commas = commas
         self.falsy = falsy
         self.enums = enums
+        self.extra = extra          # strings of EXTRA too (oracle-only streams)
+        self.wide = wide            # two-digit numbers of values / children, chains deeper than 3
+        self.unnamed = extra        # objects created without a name (the library names them by their id)
 
     def pick_str(self, allow_empty=False):
+        if self.extra and self.rng.random() < 0.15:
+            return self.rng.choice(EXTRA)
         s = self.rng.choice(STR_POOL)
         if s == "" and not allow_empty:
             return "a"
@@ -466,12 +639,18 @@ class Gen(object):
                            (None, 10 ** 12), (3, None), (2, 10), (9, 11), (0, 12), (10, 100)])
         return [a, b]
 
-    def values(self):
+    KINDS = ["string", "strlike", "int", "float", "boolean", "date", "time", "datetime", "tuple", "infer"]
+
+    def values(self, kind=None, n=None):
         """-> (dtype for the constructor, list of J-encoded values)"""
         rng = self.rng
-        kind = rng.choice(["string", "string", "strlike", "int", "float", "boolean", "date", "time",
-                           "datetime", "tuple", "none", "infer"])
-        n = rng.choice([0, 1, 1, 2, 3])
+        if kind is None:
+            kind = rng.choice(["string", "string", "strlike", "int", "float", "boolean", "date", "time",
+                               "datetime", "tuple", "none", "infer"])
+        if n is None:
+            n = rng.choice([0, 1, 1, 2, 3])
+            if self.wide and rng.random() < 0.2:
+                n = rng.choice([10, 11, 12])
         if kind == "none":
             return None, []
         if kind in ("string", "strlike"):
@@ -502,9 +681,9 @@ class Gen(object):
             vals.append("(" + ";".join(rng.choice(items) for _ in range(k)) + ")")
         return "%d-tuple" % k, vals
 
-    def prop(self, name):
+    def prop(self, name, kind=None, n=None):
         rng = self.rng
-        dtype, vals = self.values()
+        dtype, vals = self.values(kind, n)
         if self.enums and isinstance(dtype, str) and not dtype.endswith("-tuple") and rng.random() < 0.1:
             dtype = {"enum": dtype}
         unc = None
@@ -528,12 +707,29 @@ class Gen(object):
         rng = self.rng
         pool = list(NAME_POOL)
         rng.shuffle(pool)
+        if self.unnamed:
+            return [None if rng.random() < 0.1 else nm for nm in pool[:n]]
         return pool[:n]
+
+    def rich_sec(self, name):
+        """A Section with one Property per class of value (every scalar class meets every configuration
+        and every process state of the streams that use it), some typed by DType members."""
+        rng = self.rng
+        names = self.names(len(self.KINDS))
+        props = [self.prop(nm, kind, rng.choice([1, 2, 3])) for nm, kind in zip(names, self.KINDS)]
+        sec = self.sec(name, 3)
+        sec["props"] = props
+        sec["link"] = None
+        return sec
 
     def sec(self, name, depth):
         rng = self.rng
         nprops = rng.choice([0, 1, 2, 3, 4]) if depth < 3 else rng.choice([0, 1])
         nsecs = rng.choice([0, 0, 1, 2]) if depth < 3 else 0
+        if self.wide and depth == 1 and rng.random() < 0.3:
+            nprops, nsecs = rng.choice([(10, 1), (12, 0), (2, 10), (11, 11)])
+        if self.wide and 3 <= depth < 9 and rng.random() < 0.6:
+            nsecs = 1                                   # a chain below the usual depth
         link = None
         include = None
         r = rng.random()
@@ -549,10 +745,16 @@ class Gen(object):
                 "props": [self.prop(nm) for nm in self.names(nprops)],
                 "secs": [self.sec(nm, depth + 1) for nm in self.names(nsecs)]}
 
-    def doc(self, nsecs=None):
+    def doc(self, nsecs=None, rich=False):
         rng = self.rng
         if nsecs is None:
             nsecs = rng.choice([0, 1, 1, 2, 3])
+        if rich:
+            d = self.doc(max(1, nsecs) - 1)
+            d["secs"].insert(rng.randrange(len(d["secs"]) + 1),
+                             self.rich_sec([n for n in NAME_POOL if n not in
+                                            [s["name"] for s in d["secs"]]][0]))
+            return d
         version = None
         r = rng.random()
         if r < 0.4:
@@ -617,33 +819,521 @@ def run_reader(parsed, lenient):
     return {"doc": fresh_ids(snap_doc(doc), known), "warnings": len(reader.warnings)}
 
 
+class _OwnThreadText(io.TextIOBase):
+    """Collects what the creating thread writes. The library's repository loader threads (started by an
+    earlier document) print their failures to sys.stdout whenever they are done: not part of a display."""
+
+    def __init__(self):
+        io.TextIOBase.__init__(self)
+        import threading
+        self._me = threading.get_ident
+        self._owner = self._me()
+        self._parts = []
+
+    def writable(self):
+        return True
+
+    def write(self, text):
+        if self._me() == self._owner:
+            self._parts.append(text)
+        return len(text)
+
+    def getvalue(self):
+        return "".join(self._parts)
+
+
 class SaveRefused(Exception):
     """write_file refused the document (validation errors): not a case of this property."""
 
 
-def via_entry(doc, fmt, entry, tmpdir):
-    """Save and load through one public entry point -> (text, loaded document)."""
+def via_entry(doc, fmt, entry, tmpdir, wname=None, rname=None, show_warnings=False, fname=None,
+              writer=None, reader=None, kwargs=None):
+    """Save and load through one public entry point -> (text, loaded document).
+    wname / rname: the spelling of the backend name handed to the writer / the reader (default: `fmt`);
+    fname: stem of the file name; writer / reader: objects to use again instead of new ones (where the
+    entry point takes one)."""
     import odml
     from odml.tools.odmlparser import ODMLWriter, ODMLReader
     from odml.tools.parser_utils import ParserException
+    wname = wname or fmt
+    rname = rname or fmt
+    kwargs = kwargs or {}        # keyword arguments meant for other backends: JSON / YAML ignore them
+    if fname is not None:
+        try:
+            fname.encode(sys.getfilesystemencoding())
+        except UnicodeError:
+            fname = None         # this process cannot name such a file at all (locale): not the library's doing
+
+    def the_writer():
+        return writer if writer is not None else ODMLWriter(wname)
+
+    def the_reader():
+        return reader if reader is not None else ODMLReader(rname, show_warnings=show_warnings)
     if entry == "string":
-        text = ODMLWriter(fmt).to_string(doc)
-        return text, ODMLReader(fmt, show_warnings=False).from_string(text)
-    path = os.path.join(tmpdir, "doc." + fmt.lower())
+        text = the_writer().to_string(doc, **kwargs)
+        return text, the_reader().from_string(text)
+    if entry == "display":
+        # odml.display: the document text goes to stdout, nothing else does
+        buf = _OwnThreadText()
+        old = sys.stdout
+        sys.stdout = buf
+        try:
+            odml.display(doc, wname)
+        finally:
+            sys.stdout = old
+        text = buf.getvalue()
+        if text.endswith("\n"):
+            text = text[:-1]                  # the line end print() adds
+        return text, the_reader().from_string(text)
+    path = os.path.join(tmpdir, (fname or "doc") + "." + fmt.lower())
     try:
         if entry == "file":
-            ODMLWriter(fmt).write_file(doc, path)
+            the_writer().write_file(doc, path, **kwargs)
+        elif entry == "save_noext":
+            # odml.save completes a file name without extension by the backend name as it was given
+            stem = os.path.join(tmpdir, (fname or "doc").replace(".", "_") + "_noext")
+            odml.save(doc, stem, wname, **kwargs)
+            path = stem + "." + wname if os.path.exists(stem + "." + wname) else stem
         else:
-            odml.save(doc, path, fmt)
+            odml.save(doc, path, wname, **kwargs)
     except ParserException as exc:
         raise SaveRefused(str(exc)[:300])
     if entry == "file":
-        loaded = ODMLReader(fmt, show_warnings=False).from_file(path)
+        loaded = the_reader().from_file(path)
     else:
-        loaded = odml.load(path, fmt, show_warnings=False)
+        loaded = odml.load(path, rname, show_warnings=show_warnings)
     with io.open(path, encoding="utf-8") as fh:
         text = fh.read()
     return text, loaded
+
+
+# ----------------------------------------------------------------------------- histories
+# One document, several saves / loads one after the other: the same writer / reader object used again
+# (with and without an edit of the document in between, after a refused save, after a failed load), the
+# same file written again, every spelling of the backend name, other library features used in between.
+# The `history` stream runs such a list of steps in the process of the check (whatever its module-level
+# state is by then), the `fresh` stream in a new interpreter (first use of everything; other hash seed,
+# other locale).
+
+BAD_TEXTS = {"JSON": ['{"Document": {}, "odml-version": "1.0"}', "[]", "{", '{"Document": {"foo": 1}, '
+                      '"odml-version": "1.1"}', ""],
+             "YAML": ["Document: {}\nodml-version: '1.0'\n", "- a\n", "{", "Document: {foo: 1}\n"
+                      "odml-version: '1.1'\n", "a: !!python/object/apply:os.getcwd []\n"]}
+
+
+def doc_sections(doc):
+    out = []
+
+    def walk(s):
+        out.append(s)
+        for c in s.sections:
+            walk(c)
+    for s in doc.sections:
+        walk(s)
+    return out
+
+
+def apply_edit(doc, step, poison):
+    """One edit of the living document through the public API. `poison` is the stack of undo functions
+    of the edits that made the document invalid (a validation *error*: write_file has to refuse it)."""
+    import random
+    rng = random.Random(step["seed"])
+    g = Gen(rng, commas=False, extra=True)
+    kind = step["kind"]
+    secs = doc_sections(doc)
+    props = [p for s in secs for p in s.properties]
+    tag = "e%d" % (step["seed"] % 100000)
+    try:
+        if kind == "unpoison":
+            while poison:
+                poison.pop()()
+        elif kind == "add_sec" or not secs:
+            build_sec(g.sec("sec " + tag, 3), rng.choice([doc] + secs))
+        elif kind == "add_prop":
+            build_prop(g.prop("prop " + tag), rng.choice(secs))
+        elif kind == "add_kinds":
+            build_sec(g.rich_sec("kinds " + tag), rng.choice([doc] + secs))
+        elif kind == "remove_prop" and props:
+            p = rng.choice(props)
+            p.parent.remove(p)
+        elif kind == "remove_sec":
+            s = rng.choice(secs)
+            s.parent.remove(s)
+        elif kind == "set_attr":
+            target = rng.choice([doc] + secs + props + props)
+            if target is doc:
+                attr = rng.choice(["author", "version", "date", "repository"])
+                val = {"author": g.opt_str(0.7), "version": rng.choice(["2", 3, 0, None, "1e3"]),
+                       "date": rng.choice([None, dt.date(987, 6, 5), dt.date(2024, 2, 29), "2020-01-02"]),
+                       "repository": rng.choice([None, "http://example.invalid/r.xml"])}[attr]
+            elif any(target is x for x in secs):
+                attr = rng.choice(["definition", "reference", "type", "sec_cardinality", "prop_cardinality"])
+                val = g.card() if attr.endswith("cardinality") else (g.pick_str() if attr == "type"
+                                                                   else g.opt_str(0.7))
+                if attr.endswith("cardinality") and val is not None:
+                    val = tuple(val)
+            else:
+                attr = rng.choice(["unit", "definition", "reference", "value_origin", "uncertainty",
+                                   "dependency_value", "val_cardinality"])
+                if attr == "uncertainty":
+                    val = rng.choice([None, 0, 0.0, 0.5, "0.5", 12])
+                elif attr == "dependency_value":
+                    val = rng.choice([None, 0, False, "yes", 1.5, ""])
+                elif attr == "val_cardinality":
+                    val = g.card()
+                    val = tuple(val) if val is not None else None
+                else:
+                    val = g.opt_str(0.7)
+            setattr(target, attr, val)
+        elif kind == "set_values" and props:
+            p = rng.choice(props)
+            dtype, vals = g.values()
+            p.values = None
+            if dtype is not None:
+                p.dtype = dtype
+            p.values = [dec(v) for v in vals]
+        elif kind == "rename":
+            rng.choice(secs + props).name = "name " + tag
+        elif kind == "reorder":
+            rng.choice(secs + props).reorder(0)
+        elif kind == "poison_type":
+            s = rng.choice(secs)
+            old = s.type
+            s.type = ""
+
+            def undo(s=s, old=old):
+                s.type = old
+            poison.append(undo)
+        elif kind == "poison_dupid":
+            s = rng.choice(secs)
+            c = s.clone(keep_id=True)
+            c.name = "dup " + tag
+            s.parent.append(c)
+
+            def undo(c=c):
+                c.parent.remove(c)
+            poison.append(undo)
+        else:
+            return {"op": "edit", "kind": kind, "done": False}
+    except Exception as exc:
+        return {"op": "edit", "kind": kind, "raised": fw.exc_name(exc)}
+    return {"op": "edit", "kind": kind, "done": True}
+
+
+def run_steps(case):
+    """Runs the steps of a history on one living document -> {"steps": [observation per step]}."""
+    import random
+    from odml.tools.odmlparser import ODMLWriter, ODMLReader
+    try:
+        doc = build_doc(case["doc"], case.get("route"))
+    except Exception as exc:
+        return {"unbuildable": fw.exc_name(exc)}
+    writers, readers = {}, {}
+    poison = []
+    out = []
+    tmpdir = tempfile.mkdtemp(prefix="c02_")
+
+    def reader_of(step, fmt):
+        if step.get("r") is None:
+            return None
+        key = (fmt, step["r"], bool(step.get("show_warnings")))
+        if key not in readers:
+            readers[key] = ODMLReader(step["fmt"], show_warnings=key[2])
+        return readers[key]
+
+    def load_text(step, fmt, text, reader):
+        rd = reader if reader is not None else ODMLReader(step.get("rfmt") or step["fmt"], show_warnings=False)
+        if step.get("entry") in ("file", "saveload", "save_noext"):
+            path = os.path.join(tmpdir, "foreign." + fmt.lower())
+            with io.open(path, "w", encoding="utf-8", newline="") as fh:
+                fh.write(text)
+            return rd.from_file(path)
+        return rd.from_string(text)
+    try:
+        for step in case["steps"]:
+            op = step["op"]
+            if op == "edit":
+                out.append(apply_edit(doc, step, poison))
+                continue
+            if op == "other":
+                # another feature of the library used in between; what it does is not this property's business
+                o = {"op": "other", "what": step["what"]}
+                try:
+                    if step["what"] == "xml":
+                        ODMLReader("xml", show_warnings=False).from_string(ODMLWriter("xml").to_string(doc))
+                    elif step["what"] == "rdf":
+                        ODMLWriter("rdf").to_string(doc.clone(keep_id=True))
+                    elif step["what"] == "validate":
+                        doc.validate()
+                    elif step["what"] == "dict":
+                        from odml.tools.dict_parser import DictWriter
+                        DictWriter().to_dict(doc)
+                except Exception as exc:
+                    o["raised"] = fw.exc_name(exc)
+                out.append(o)
+                continue
+            fmt = step["fmt"].upper()
+            reader = reader_of(step, fmt)
+            if op == "bad_load":
+                # a load that fails (or warns): the reader object may be used again afterwards
+                o = {"op": "bad_load", "fmt": fmt}
+                try:
+                    load_text(step, fmt, BAD_TEXTS[fmt][step["which"] % len(BAD_TEXTS[fmt])], reader)
+                except Exception as exc:
+                    o["raised"] = fw.exc_name(exc)
+                out.append(o)
+                continue
+            if op == "foreign":
+                # a 1.1 structure written by the harness itself, through the same (possibly used) reader
+                o = {"op": "foreign", "fmt": fmt, "entry": step.get("entry")}
+                layout = layout_of(case["doc"], random.Random(step["seed"]))
+                text = foreign_text(layout, fmt, random.Random(step["seed"]))
+                if text is None:
+                    o["skipped"] = True
+                else:
+                    o["orig"] = snap_doc(build_doc(case["doc"]))
+                    try:
+                        loaded = load_text(step, fmt, text, reader)
+                        o["loaded"] = snap_doc(loaded) if loaded is not None else None
+                    except Exception as exc:
+                        o["raised"] = fw.exc_name(exc)
+                        o["msg"] = str(exc)[:300]
+                out.append(o)
+                continue
+            # op == "rt": save the living document and load it again
+            o = {"op": "rt", "fmt": fmt, "as": step["fmt"], "entry": step["entry"], "poisoned": bool(poison),
+                 "orig": snap_doc(doc)}
+            writer = None
+            if step.get("w") is not None:
+                key = (fmt, step["w"])
+                if key not in writers:
+                    writers[key] = ODMLWriter(step["fmt"])      # created at its first use, not before
+                writer = writers[key]
+            if step["entry"] == "dict":
+                # DictWriter.to_dict / DictReader.to_odml themselves, the objects kept between steps
+                from odml.tools.dict_parser import DictWriter, DictReader
+                from odml.info import FORMAT_VERSION
+                dw = writers.setdefault(("dict", step.get("w")), DictWriter()) \
+                    if step.get("w") is not None else DictWriter()
+                lenient = bool(step.get("show_warnings"))
+                dr = readers.setdefault(("dict", step.get("r"), lenient),
+                                        DictReader(show_warnings=False, ignore_errors=lenient)) \
+                    if step.get("r") is not None else DictReader(show_warnings=False, ignore_errors=lenient)
+                try:
+                    image = {"Document": dw.to_dict(doc), "odml-version": FORMAT_VERSION}
+                    o["layout"] = layout_problems(image)
+                    # through the text and back: what the reader gets shares nothing with the writer's image
+                    loaded = dr.to_odml(parse_text(fmt, ODMLWriter(fmt).to_string(doc))
+                                        if step.get("through_text") else copy.deepcopy(image))
+                    o["loaded"] = snap_doc(loaded) if loaded is not None else None
+                except Exception as exc:
+                    o["raised"] = fw.exc_name(exc)
+                    o["msg"] = str(exc)[:300]
+                out.append(o)
+                continue
+            try:
+                text, loaded = via_entry(doc, fmt, step["entry"], tmpdir, wname=step["fmt"],
+                                         rname=step.get("rfmt") or step["fmt"],
+                                         show_warnings=bool(step.get("show_warnings")),
+                                         fname=step.get("fname"), writer=writer, reader=reader,
+                                         kwargs=step.get("kw"))
+                o["loaded"] = snap_doc(loaded) if loaded is not None else None
+                try:
+                    parsed = parse_text(fmt, text)
+                    o["layout"] = layout_problems(parsed)
+                    o["strict"] = run_reader(parsed, False)
+                except Exception as exc:
+                    o["parsed"] = {"raised": fw.exc_name(exc)}
+            except SaveRefused as exc:
+                o["refused"] = str(exc)
+            except Exception as exc:
+                o["raised"] = fw.exc_name(exc)
+                o["msg"] = str(exc)[:300]
+            out.append(o)
+    finally:
+        for name in os.listdir(tmpdir):
+            os.unlink(os.path.join(tmpdir, name))
+        os.rmdir(tmpdir)
+    return {"steps": out}
+
+
+def steps_oracle(obs):
+    """The property on every step of a history: what was saved loads to the document it was saved from
+    (valid documents only: a step on a document the validation rejects demands nothing), the text is in the
+    1.1 layout; a harness-written 1.1 structure loads to the document it describes."""
+    out = []
+    for i, o in enumerate(obs.get("steps", [])):
+        if o.get("op") == "foreign":
+            if o.get("skipped"):
+                continue
+            where = "step %d (foreign %s %s)" % (i, o["fmt"], o.get("entry"))
+            if "raised" in o:
+                out.append("%s: text in the 1.1 layout is refused: %s %s" % (where, o["raised"], o.get("msg")))
+            elif o.get("loaded") is None:
+                out.append("%s: loading returned None" % where)
+            elif fw.canon(o["loaded"]) != fw.canon(o["orig"]):
+                out.append("%s: text in the 1.1 layout loads to another document: %s"
+                           % (where, first_diff(o["orig"], o["loaded"])))
+            continue
+        if o.get("op") != "rt" or o.get("poisoned") or "refused" in o:
+            # refused: write_file found validation errors - not a case of this property (as in `roundtrip`)
+            continue
+        where = "step %d (%s as %r, %s)" % (i, o["fmt"], o["as"], o["entry"])
+        if "raised" in o:
+            out.append("%s: save/load raised %s: %s" % (where, o["raised"], o.get("msg")))
+            continue
+        if isinstance(o.get("parsed"), dict) and "raised" in o["parsed"]:
+            out.append("%s: the text could not be parsed: %s" % (where, o["parsed"]["raised"]))
+            continue
+        if o.get("loaded") is None:
+            out.append("%s: loading returned None" % where)
+            continue
+        if fw.canon(o["loaded"]) != fw.canon(o["orig"]):
+            out.append("%s: loaded document differs from the saved one: %s"
+                       % (where, first_diff(o["orig"], o["loaded"])))
+        for prob in o.get("layout", []):
+            out.append("%s layout: %s" % (where, prob))
+        r = o.get("strict") or {}
+        if "raised" in r:
+            out.append("%s: strict DictReader raised %s on the saved text" % (where, r["raised"]))
+        elif "doc" in r and fw.canon(r["doc"]) != fw.canon(o["orig"]):
+            out.append("%s: strict DictReader on the saved text: document differs: %s"
+                       % (where, first_diff(o["orig"], r["doc"])))
+    return out
+
+
+def gen_steps(rng, fresh):
+    """A history: 2-6 saves/loads in every configuration, edits, refused saves, failed loads in between."""
+    steps = []
+
+    def fmt_name():
+        f = rng.choice(FORMATS)
+        return rng.choice(SPELLINGS[f])
+
+    def rt(**kw):
+        name = kw.pop("fmt", None) or fmt_name()
+        st = {"op": "rt", "fmt": name, "entry": rng.choice(ENTRIES + ["dict"]),
+              "w": rng.choice([None, 0, 0, 1]), "r": rng.choice([None, 0, 0, 1]),
+              "show_warnings": rng.random() < 0.3,
+              # a locale without UTF-8 cannot even name such a file: plain names in `fresh`
+              "fname": None if fresh else rng.choice(FNAMES)}
+        if rng.random() < 0.3:
+            st["rfmt"] = rng.choice(SPELLINGS[name.upper()])
+        if rng.random() < 0.2:
+            st["kw"] = rng.choice([{"rdf_format": "turtle"}, {"local_style": True},
+                                   {"custom_template": "x.xsl", "rdf_format": "xml"}])
+        st.update(kw)
+        if st["entry"] == "dict":
+            st["through_text"] = rng.random() < 0.5
+        return st
+    if rng.random() < 0.35:
+        steps.append({"op": "other", "what": rng.choice(["xml", "rdf", "validate", "dict"])})
+    if rng.random() < 0.25:
+        steps.append({"op": rng.choice(["bad_load", "foreign"]), "fmt": fmt_name(), "r": rng.choice([None, 0]),
+                      "which": rng.randrange(8), "seed": rng.randrange(1 << 30),
+                      "entry": rng.choice(["string", "file"])})
+    n = rng.choice([2, 3, 4, 5, 6])
+    seen = set()
+    for i in range(n):
+        r = rng.random()
+        if i and r < 0.45:
+            steps.append({"op": "edit", "seed": rng.randrange(1 << 30),
+                          "kind": rng.choice(["add_sec", "add_prop", "add_kinds", "remove_prop", "remove_sec",
+                                              "set_attr", "set_attr", "set_values", "rename", "reorder"])})
+        elif i and r < 0.6:
+            # a save the validation refuses, through the writer the next save uses again
+            steps.append({"op": "edit", "seed": rng.randrange(1 << 30),
+                          "kind": rng.choice(["poison_type", "poison_dupid"])})
+            name = fmt_name()
+            steps.append(rt(fmt=name, entry=rng.choice(["file", "file", "saveload", "string"]), w=0))
+            steps.append({"op": "edit", "seed": 0, "kind": "unpoison"})
+            steps.append(rt(fmt=rng.choice(SPELLINGS[name.upper()]), w=0))
+            seen.add(name.upper())
+            continue
+        elif i and r < 0.75:
+            steps.append({"op": rng.choice(["bad_load", "bad_load", "foreign"]), "fmt": fmt_name(), "r": 0,
+                          "which": rng.randrange(8), "seed": rng.randrange(1 << 30),
+                          "entry": rng.choice(["string", "file"])})
+        st = rt()
+        seen.add(st["fmt"].upper())
+        steps.append(st)
+    for f in FORMATS:
+        if f not in seen:              # both formats in every history
+            steps.append(rt(fmt=rng.choice(SPELLINGS[f])))
+    if fresh:
+        # files other tools wrote (raw UTF-8 among them), read under this process' locale
+        for f in FORMATS:
+            steps.append({"op": "foreign", "fmt": rng.choice(SPELLINGS[f]), "r": rng.choice([None, 0]),
+                          "seed": rng.randrange(1 << 30), "entry": "file"})
+    return steps
+
+
+CHILD_MARK = "C02-OBSERVATION "
+
+
+def fresh_child_main():
+    """`c02.py --fresh-child`: one history in this new interpreter; case on stdin, observation on stdout."""
+    case = json.loads(sys.stdin.buffer.read().decode("utf-8"))
+    # the library prints (also from the threads that fetch repositories, at any later time): everything
+    # but the one marked answer line goes nowhere, for good
+    real = sys.stdout
+    sys.stdout = io.StringIO()
+    sys.stderr = io.StringIO()
+    try:
+        obs = run_steps(case)
+    except BaseException:
+        import traceback
+        sys.__stderr__.write(traceback.format_exc())
+        sys.__stderr__.flush()
+        os._exit(1)
+    real.write(CHILD_MARK + json.dumps(obs, ensure_ascii=True) + "\n")
+    real.flush()
+    os._exit(0)            # do not wait for such threads
+
+
+def no_time(x, dates_too=False):
+    """yaml.safe_dump has no representer for datetime.time: times travel as text (as in odML's own YAML);
+    dates_too: dates and datetimes as text as well (what JSON does)."""
+    if isinstance(x, dict):
+        return dict((k, no_time(v, dates_too)) for k, v in x.items())
+    if isinstance(x, list):
+        return [no_time(v, dates_too) for v in x]
+    if isinstance(x, dt.time) or (dates_too and isinstance(x, dt.date)):
+        return str(x)
+    return x
+
+
+def foreign_text(layout, fmt, rng):
+    """The layout as text in one of the dialects other tools write. None when json / PyYAML themselves
+    do not read that text back to the same structure (then it does not describe the layout)."""
+    import yaml
+    try:
+        if fmt == "JSON":
+            want = no_time(layout, True)
+            indent = rng.choice([None, 2, "\t", 0])
+            text = json.dumps(want, ensure_ascii=rng.random() < 0.4, indent=indent,
+                              separators=rng.choice([None, (",", ":"), (" , ", " : ")]),
+                              sort_keys=rng.random() < 0.5)
+            if rng.random() < 0.3:
+                text = text.replace("\n", "\r\n")      # line feeds inside strings are escaped: layout only
+            if rng.random() < 0.5:
+                text += "\n"
+            back = json.loads(text)
+        else:
+            want = no_time(layout, rng.random() < 0.3)
+            text = yaml.safe_dump(want, default_flow_style=rng.choice([False, True, None]),
+                                  allow_unicode=rng.random() < 0.6, explicit_start=rng.random() < 0.3,
+                                  width=rng.choice([20, 80, 10000]), indent=rng.choice([2, 4]),
+                                  default_style=rng.choice([None, None, '"', "'"]),
+                                  sort_keys=rng.random() < 0.5,
+                                  line_break=rng.choice(["\n", "\n", "\r\n"]))
+            back = yaml.safe_load(text)
+        if fw.canon(unordered(enc(back))) != fw.canon(unordered(enc(want))):
+            return None
+        text.encode("utf-8")                  # a lone surrogate written raw: not a text file at all
+        return text
+    except Exception:
+        return None
 
 
 def format_keys():
@@ -720,18 +1410,37 @@ class C02(fw.Check):
     rule = ("random documents over the alphabet of the theorem (depth<=3, all dtypes, string pool with every "
             "YAML-retypable / whitespace / punctuation / non-ASCII class, falsy attribute values, every optional "
             "attribute, all cardinality shapes) x {JSON,YAML} x {string,file,save/load} x {strict,lenient}; plus "
-            "one-property documents per scalar class, hand-written 1.1 dictionaries with shuffled keys, and "
-            "malformed dictionaries. Non-trivial = the document has at least one Property or optional attribute; "
+            "one-property documents per scalar class, hand-written 1.1 dictionaries with shuffled keys (as "
+            "dict and as json / yaml text in several dialects, from strings and UTF-8 files), malformed "
+            "dictionaries; configurations: spelling of the backend name, show_warnings, file names, "
+            "odml.save without extension, odml.display, build route of the document; histories on one "
+            "document with reused writer / reader objects, edits, refused saves and failed loads, run in "
+            "this process and in new interpreters (hash seed, C locale). Non-trivial = the document has at least one Property or optional attribute; "
             "distinct = distinct canonical JSON of the case.")
 
     # -- generation ----------------------------------------------------------
     def generate(self, tier, rng):
         cases = []
-        ndocs = 90 if tier == "quick" else 9000
-        entries = ["string", "file", "saveload"]
+        ndocs = 100 if tier == "quick" else 9000
+
+        def config(case, k):
+            """The configuration dimensions of a save/load: how the backend name is spelled for the writer
+            and for the reader, the reader's show_warnings switch, the file name. (Every third case keeps
+            the plain configuration.)"""
+            if k % 3 == 0:
+                return case
+            case["spell"] = dict((f, [rng.choice(SPELLINGS[f]), rng.choice(SPELLINGS[f])]) for f in FORMATS)
+            case["show_warnings"] = rng.random() < 0.3
+            fname = rng.choice(FNAMES)
+            if fname is not None:
+                case["fname"] = fname
+            return case
         for i in range(ndocs):
-            g = Gen(rng, commas=(i % 10 == 9))
-            cases.append({"stream": "roundtrip", "doc": g.doc(), "entry": entries[i % 3]})
+            g = Gen(rng, commas=(i % 10 == 9), wide=(i % 4 == 1))
+            case = {"stream": "roundtrip", "doc": g.doc(), "entry": ENTRIES[i % len(ENTRIES)]}
+            if i % 2:
+                case["route"] = rng.choice(ROUTES)
+            cases.append(config(case, i))
         # scalar classes, one at a time, in every position a scalar can take
         scalars = [("string", s) for s in STR_POOL if s != ""] + [("string", "")] + \
                   [("int", i) for i in INTS] + [("float", enc(f)) for f in FLOATS] + \
@@ -745,10 +1454,10 @@ class C02(fw.Check):
             if tier == "quick" and dtype == "string" and idx % step != offset and v not in (
                     "yes", "null", "1e3", "2020-01-01", " both ", "a\nb", "\u00e9", "~", "10:11:12"):
                 continue
-            cases.append({"stream": "scalar", "doc": one_prop_doc(rng, values=[v], dtype=dtype),
-                          "entry": "string"})
-            cases.append({"stream": "scalar", "doc": one_prop_doc(rng, values=[v, v], dtype=dtype),
-                          "entry": "file"})
+            cases.append(config({"stream": "scalar", "doc": one_prop_doc(rng, values=[v], dtype=dtype),
+                                 "entry": rng.choice(["string", "display"])}, idx))
+            cases.append(config({"stream": "scalar", "doc": one_prop_doc(rng, values=[v, v], dtype=dtype),
+                                 "entry": rng.choice(["file", "save_noext"])}, idx + 1))
             if dtype == "string" and v != "":
                 cases.append({"stream": "scalar", "entry": "string",
                               "doc": one_prop_doc(rng, values=[], dtype=None, unit=v, definition=v,
@@ -764,13 +1473,32 @@ class C02(fw.Check):
         nden = 40 if tier == "quick" else 3000
         for i in range(nden):
             g = Gen(rng, commas=False, falsy=(i % 2 == 0), enums=False)
-            cases.append({"stream": "denote", "doc": g.doc(), "shuffle": rng.randrange(1 << 30)})
+            case = {"stream": "denote", "doc": g.doc(), "shuffle": rng.randrange(1 << 30)}
+            if i % 2:
+                case["variant"] = 1 + rng.randrange(1 << 30)
+                config(case, i)
+                case.pop("fname", None)
+                case.pop("show_warnings", None)
+            cases.append(case)
         # malformed dictionaries
         nmal = 100 if tier == "quick" else 6000
         for i in range(nmal):
             g = Gen(rng, commas=False, falsy=False, enums=False)
             cases.append({"stream": "malformed", "doc": g.doc(nsecs=rng.choice([1, 2])),
                           "mutation": rng.choice(MUTATIONS), "where": rng.randrange(1 << 30)})
+        # histories on one living document, in this process and in new interpreters (oracle-only)
+        nhist = 40 if tier == "quick" else 2500
+        for i in range(nhist):
+            g = Gen(rng, commas=False, extra=True, wide=(i % 5 == 0))
+            case = {"stream": "history", "doc": g.doc(rich=(i % 2 == 0)), "steps": gen_steps(rng, False)}
+            if i % 3 == 2:
+                case["route"] = rng.choice(ROUTES)
+            cases.append(case)
+        nfresh = 36 if tier == "quick" else 480
+        for i in range(nfresh):
+            g = Gen(rng, commas=False, extra=True)
+            cases.append({"stream": "fresh", "doc": g.doc(rich=(i % 4 != 3)), "steps": gen_steps(rng, True),
+                          "hashseed": rng.choice([0, 1, 7, 4242, 2 ** 32 - 1]), "locale": i % 3 == 1})
         return cases
 
     # -- implementation ------------------------------------------------------
@@ -782,16 +1510,45 @@ class C02(fw.Check):
             return self.impl_denote(case)
         if st == "malformed":
             return self.impl_malformed(case)
+        if st == "history":
+            return run_steps(case)
+        if st == "fresh":
+            return self.impl_fresh(case)
         raise ValueError(st)
+
+    def impl_fresh(self, case):
+        """The history of the case in a new interpreter: nothing of the library has been used before its
+        first step (module-level tables of odml, yaml and json are as the imports leave them); the hash
+        seed and, for some cases, the locale / default text encoding differ from this process."""
+        import subprocess
+        env = dict(os.environ)
+        env.update({"ODML_REPO": fw.REPO, "PYTHONPATH": os.path.join(fw.VERIF, "harness"),
+                    "PYTHONDONTWRITEBYTECODE": "1", "PYTHONHASHSEED": str(case.get("hashseed", 0))})
+        if case.get("locale"):
+            env.update({"LC_ALL": "C", "LANG": "C", "PYTHONUTF8": "0", "PYTHONCOERCECLOCALE": "0"})
+            env.pop("PYTHONIOENCODING", None)
+        try:
+            proc = subprocess.run([sys.executable, os.path.abspath(__file__), "--fresh-child"],
+                                  input=json.dumps(case, ensure_ascii=True).encode("ascii"), env=env,
+                                  stdout=subprocess.PIPE, stderr=subprocess.PIPE, timeout=90)
+        except subprocess.TimeoutExpired:
+            return {"skipped": "the child interpreter did not answer in time (loaded machine)"}
+        if proc.returncode != 0:
+            return {"child_failed": proc.stderr.decode("utf-8", "replace")[-800:]}
+        for line in proc.stdout.decode("ascii", "replace").splitlines():
+            if line.startswith(CHILD_MARK):
+                return json.loads(line[len(CHILD_MARK):])
+        return {"child_failed": "no answer line; stderr: " + proc.stderr.decode("utf-8", "replace")[-800:]}
 
     def impl_roundtrip(self, case):
         from odml.tools.dict_parser import DictWriter
         from odml.info import FORMAT_VERSION
         try:
-            doc = build_doc(case["doc"])
+            doc = build_doc(case["doc"], case.get("route"))
         except Exception as exc:
             return {"unbuildable": fw.exc_name(exc)}
         obs = {"orig": snap_doc(doc)}
+        spell = case.get("spell") or {}
         try:
             d = DictWriter().to_dict(doc)
             obs["dict"] = enc({"Document": d, "odml-version": FORMAT_VERSION})
@@ -804,7 +1561,10 @@ class C02(fw.Check):
             for fmt in FORMATS:
                 o = {}
                 try:
-                    text, loaded = via_entry(doc, fmt, case["entry"], tmpdir)
+                    wname, rname = spell.get(fmt) or (fmt, fmt)
+                    text, loaded = via_entry(doc, fmt, case["entry"], tmpdir, wname=wname, rname=rname,
+                                             show_warnings=bool(case.get("show_warnings")),
+                                             fname=case.get("fname"))
                 except SaveRefused as exc:
                     obs[fmt] = {"refused": str(exc)}
                     continue
@@ -842,21 +1602,44 @@ class C02(fw.Check):
         obs["layout"] = enc(layout)
         obs["direct"] = {"strict": run_reader(layout, False), "lenient": run_reader(layout, True)}
         # the same structure as text written by other tools: plain json / yaml.safe_dump
-        def no_time(x):
-            if isinstance(x, dict):
-                return dict((k, no_time(v)) for k, v in x.items())
-            if isinstance(x, list):
-                return [no_time(v) for v in x]
-            return str(x) if isinstance(x, dt.time) else x
         texts = {"JSON": json.dumps(layout, cls=JSONDateTimeSerializer),
                  "YAML": yaml.safe_dump(no_time(layout), default_flow_style=bool(case["shuffle"] % 2),
                                         allow_unicode=False)}
-        for fmt in FORMATS:
-            try:
-                loaded = ODMLReader(fmt, show_warnings=False).from_string(texts[fmt])
-                obs[fmt] = {"loaded": snap_doc(loaded), "parsed": enc(parse_text(fmt, texts[fmt]))}
-            except Exception as exc:
-                obs[fmt] = {"raised": fw.exc_name(exc), "msg": str(exc)[:300]}
+        how = {"JSON": "string", "YAML": "string"}
+        if case.get("variant"):
+            # ... and in the other dialects such tools write (raw UTF-8, other indentation / line width /
+            # quoting / line ends, dates as text), from a string and from a UTF-8 file
+            vrng = random.Random(case["variant"])
+            for fmt in FORMATS:
+                text = foreign_text(layout, fmt, vrng)
+                if text is not None:
+                    texts[fmt] = text
+                how[fmt] = vrng.choice(["string", "file", "load"])
+        spell = case.get("spell") or {}
+        tmpdir = tempfile.mkdtemp(prefix="c02_")
+        try:
+            for fmt in FORMATS:
+                rname = (spell.get(fmt) or (fmt, fmt))[1]
+                try:
+                    if how[fmt] == "string":
+                        loaded = ODMLReader(rname, show_warnings=False).from_string(texts[fmt])
+                    else:
+                        path = os.path.join(tmpdir, "foreign." + fmt.lower())
+                        with io.open(path, "w", encoding="utf-8", newline="") as fh:
+                            fh.write(texts[fmt])
+                        if how[fmt] == "file":
+                            loaded = ODMLReader(rname, show_warnings=False).from_file(path)
+                        else:
+                            import odml
+                            loaded = odml.load(path, rname, show_warnings=False)
+                    obs[fmt] = {"loaded": snap_doc(loaded), "parsed": enc(parse_text(fmt, texts[fmt])),
+                                "how": how[fmt]}
+                except Exception as exc:
+                    obs[fmt] = {"raised": fw.exc_name(exc), "msg": str(exc)[:300], "how": how[fmt]}
+        finally:
+            for name in os.listdir(tmpdir):
+                os.unlink(os.path.join(tmpdir, name))
+            os.rmdir(tmpdir)
         return obs
 
     def impl_malformed(self, case):
@@ -875,8 +1658,8 @@ class C02(fw.Check):
     def model_requests(self, case, obs):
         st = case["stream"]
         reqs = []
-        if "unbuildable" in obs:
-            return reqs
+        if "unbuildable" in obs or st in ("history", "fresh"):
+            return reqs          # histories: oracle-only (the model has no writer / reader objects)
         P = {"p": "C02"}
         if st in ("roundtrip", "scalar"):
             libw = lib_tables(obs["orig_strings"]) if "orig_strings" in obs else lib_tables(_snap_strings(obs["orig"]))
@@ -990,6 +1773,10 @@ class C02(fw.Check):
             return []
         st = case["stream"]
         out = []
+        if st in ("history", "fresh"):
+            if "child_failed" in obs:
+                return ["the history could not be run in a new interpreter: %s" % obs["child_failed"]]
+            return steps_oracle(obs)
         if st in ("roundtrip", "scalar"):
             orig = obs["orig"]
             if isinstance(obs["dict"], dict) and "raised" in obs["dict"]:
@@ -1074,6 +1861,12 @@ class C02(fw.Check):
             if any("refused" in (obs.get(f) or {}) for f in FORMATS):
                 return ("%s:%s:save-refused" % (st, case["entry"]), False)
             return ("%s:%s" % (st, case["entry"]), nt)
+        if st in ("history", "fresh"):
+            if "skipped" in obs or "child_failed" in obs:
+                return (st + ":not-run", False)
+            rts = [o for o in obs.get("steps", []) if o.get("op") == "rt"]
+            first = rts[0] if rts else {}
+            return ("%s:first=%s" % (st, first.get("as")), bool(rts))
         if st == "malformed":
             r = obs.get("strict", {})
             return ("malformed:%s:%s" % (case["mutation"], r.get("raised", "ok")), True)
@@ -1252,4 +2045,6 @@ def mutate(layout, mutation, rng):
 
 
 if __name__ == "__main__":
+    if sys.argv[1:2] == ["--fresh-child"]:
+        sys.exit(fresh_child_main())
     sys.exit(fw.main(C02(), sys.argv[1:]))
